@@ -619,7 +619,7 @@ fn check_c09(tier: Tier, seed: u64) -> i32 {
                 }
             }
             best.faults.clear();
-            return (best.to_json(), tries > 1, json!({"run_index": f.index, "isolated_minimiser_executions": tries}));
+            return (best.to_json(), tries > 1, json!({"run_index": f.index, "isolated_minimiser_executions": tries, "watchdog_budget_s": budget.as_secs()}));
         }
         let (m, tries) = engine::minimise("C09", &f.scenario, &class, exec::Trace::Light, false, 2000, 90.0);
         let still = engine::reproduces("C09", &m, &class, exec::Trace::Light, false);
@@ -985,7 +985,9 @@ fn run_replay(path: &str) -> i32 {
                 None => (exec::Trace::Light, true),
             };
             let vs = if prop == "C09" {
-                procs::exec_isolated("C09", &sc, std::time::Duration::from_secs(180))
+                // a hang is judged against the budget of the check that reported it
+                let b = doc["extra"]["watchdog_budget_s"].as_u64().unwrap_or(180);
+                procs::exec_isolated("C09", &sc, std::time::Duration::from_secs(b))
             } else {
                 let recs = exec::run_scenario(&sc, trace, spy);
                 let mut st = engine::Stats::default();
